@@ -116,6 +116,9 @@ FamOps ==
   {Case("ops", [ops |-> o, frags |-> <<>>], n, NoVars, {}) : o \in {OpsAB, OpsAM}, n \in {"", "A", "B", "M", "Nope"}}
   \cup {Case("ops", [ops |-> <<Op("A", "query", <<>>, <<F("", "title")>>)>>, frags |-> <<>>], n, NoVars, {}) : n \in {"", "A", "Nope"}}
   \cup {Case("ops", [ops |-> <<Op("", "query", <<>>, <<F("", "title")>>)>>, frags |-> <<>>], n, NoVars, {}) : n \in {"", "Nope"}}
+  \* an anonymous operation beside a named one: without a name neither is "the only one"
+  \cup {Case("ops", [ops |-> <<Op("", "query", <<>>, <<F("", "title")>>), Op("B", "query", <<>>, <<F("", "nul")>>)>>, frags |-> <<>>], n, NoVars, {}) : n \in {"", "B", "Nope"}}
+  \cup {Case("ops", [ops |-> <<Op("M", "mutation", <<>>, <<FA("", "set", <<Arg("s", StrV("v"))>>)>>), Op("", "query", <<>>, <<F("", "title")>>)>>, frags |-> <<>>], n, NoVars, {}) : n \in {"", "M"}}
   \cup {Case("ops", [ops |-> <<Op("M", "mutation", <<>>, <<FA("", "set", <<Arg("s", StrV("v"))>>)>>)>>, frags |-> <<>>], n, NoVars, {}) : n \in {"", "M"}}
 
 \* ---- @skip / @include: every combination, both orders, three selection kinds, two depths (C09)
